@@ -103,6 +103,14 @@ WNames == WithAbs(WRel)
 WOrigins == {NoOrigin, Some(Root), Some(<< <<97>>, <<>> >>), Some(<< <<98>>, <<65>>, <<>> >>)}
 WBases == {0, 16376, 16381, 16384}
 
+(* C01 encoders at the 255 / 256 boundary: RELATIVE names of up to 3 labels a^k, k in {1,2,62,63},
+   x absolute origins of up to 2 such labels (label + length octet = 2, 3, 63, 64 octets: the sums
+   pass through 254, 255, 256, 257, ... 321), for to_wire(None, None, origin), to_wire(file,
+   compress, origin) and to_digestable(origin) *)
+LenLabels == {Rep(97, k) : k \in {1, 2, 62, 63}}
+LenRel == {<<>>} \cup UNION {[1..m -> LenLabels] : m \in 1..3}
+LenOrg == {n \o Root : n \in {<<>>} \cup UNION {[1..m -> LenLabels] : m \in 1..2}}
+
 (* C01 (d): constructor inputs exactly at 63/64 and 255/256 *)
 DLabels == {Rep(97, k) : k \in {1, 2, 61, 62, 63, 64}}
 DSeqs == {<<>>} \cup UNION {[1..m -> DLabels \cup {<<>>}] : m \in 1..2}
